@@ -403,7 +403,12 @@ fn explore(ctx: &mut Ctx) {
         }
     }
     {
-        // ~20 blocks of short runs, then a long gap and a final run
+        // ~20 blocks of short runs spread evenly over the universe (block starts fall into several buckets of
+        // the sample indexes) ...
+        let even: Vec<(u64, u64)> = (0..640u64).map(|i| (1 + i % 3, 1 + i % 2)).collect();
+        parents.push(Parent::RlLoaded(BitsDesc::Runs { pairs: even.clone(), tail: 9 }));
+        parents.push(Parent::Rl(BitsDesc::Runs { pairs: even, tail: 9 }));
+        // ... and the same followed by a long gap and a final run (all block starts in the first bucket)
         let mut pairs: Vec<(u64, u64)> = (0..640u64).map(|i| (1 + i % 3, 1 + i % 2)).collect();
         pairs.push((5000, 3));
         parents.push(Parent::RlLoaded(BitsDesc::Runs { pairs: pairs.clone(), tail: 9 }));
